@@ -163,34 +163,58 @@ Theorem C07_conn_conservation : forall c tr s cn,
 Proof. exact conn_conservation. Qed.
 Print Assumptions C07_conn_conservation.
 
-(* "close fails every waiter", full statement: no live waiter is ever queued on a closed connector
-   (in traces that start no request after the close).  REFUTED: a waiter woken just before the close
-   resumes afterwards, re-checks the capacity against books the close did not reset
-   (_acquired_per_host is not cleared) and queues itself again; nothing will ever wake or fail it.
-   Replayed on the implementation: corpus/C07/requeue_after_close.json
-   (known finding C07-requeue-after-close). *)
-Theorem C07_close_no_waiter_refuted : exists c tr s t k,
-  run c init (tr ++ [EClose; EResume t []]) = Some s /\ closed s = true /\
-  In (t, k, false) (waiters s).
-Proof.
-  exists {| limit := 0; lph := 1; force_close := false |}.
-  exists [EStart 0 0; EStart 1 0; ECreateFail 0 [0]; EStart 2 0].
-  eexists. exists 1, 0. vm_compute. repeat split; try reflexivity. left. reflexivity.
-Qed.
-Print Assumptions C07_close_no_waiter_refuted.
+(* Full ("close fails every waiter", first half): on a closed connector nobody is ever queued, in ANY
+   trace — the close step empties the queue and afterwards a request that finds no capacity is refused
+   (ClientConnectionError) instead of being queued, also a waiter that had been woken just before the
+   close and lost its slot.  (Repaired in /repo by 8661c48; before that repair this statement was refuted:
+   corpus/C07/requeue_after_close.json is kept as a regression case.)  The two facts the proof uses —
+   the closed test at the top of the wait loop and the clearing of the per-host book on close — are
+   read from the source by the translator (Generated.PoolGen.wait_checks_closed /
+   close_clears_per_host), so removing either breaks this theorem at compile time. *)
+Theorem C07_close_no_waiter : forall c tr s,
+  run c init tr = Some s -> closed s = true -> waiters s = [] /\ idle s = [].
+Proof. exact close_no_waiter. Qed.
+Print Assumptions C07_close_no_waiter.
 
-(* What holds for ALL traces: the close step itself fails every request queued at that moment (its
-   future is cancelled, the queue and the in-use set are emptied, and when the request runs again it
-   terminates as cancelled).  Missing for the full statement: requests that were already woken and
-   queue again after the close (refuted above). *)
-Theorem C07_close_fails_waiters_partial : forall c tr s s' t k,
+(* Full (second half): the close step fails every request queued at that moment: its future is
+   cancelled, queue and in-use set are emptied, and when the request runs again it ends cancelled. *)
+Theorem C07_close_fails_waiters : forall c tr s s' t k,
   run c init tr = Some s -> closed s = false -> step c s EClose = Some s' ->
   In (t, k, false) (waiters s) ->
   closed s' = true /\ waiters s' = [] /\ acquired s' = [] /\
   get_pc (pcs s') t = PWaiting k FCancelled /\
   forall order, exists s'', step c s' (EResume t order) = Some s'' /\ get_pc (pcs s'') t = PCancelled.
 Proof. exact close_fails_waiters. Qed.
-Print Assumptions C07_close_fails_waiters_partial.
+Print Assumptions C07_close_fails_waiters.
+
+(* Full (third half): a waiter that had already been woken when the connector closed also fails: when
+   it runs it is either refused at once or starts a connection attempt, and on a closed connector both
+   outcomes of an attempt end in failure (a connection that does arrive is closed on the spot). *)
+Theorem C07_close_woken_waiter_fails : forall c tr s t k,
+  run c init tr = Some s -> closed s = true -> get_pc (pcs s) t = PWaiting k FWoken ->
+  forall order, exists s',
+    step c s (EResume t order) = Some s' /\ closed s' = true /\
+    (get_pc (pcs s') t = PFailed \/ get_pc (pcs s') t = PCreating k).
+Proof. exact woken_fails_after_close. Qed.
+Print Assumptions C07_close_woken_waiter_fails.
+
+Theorem C07_close_attempt_fails : forall c s t k,
+  closed s = true -> get_pc (pcs s) t = PCreating k ->
+  (exists s', step c s (ECreateOk t) = Some s' /\ get_pc (pcs s') t = PFailed /\ In (nconn s) (closedc s')) /\
+  (forall order, exists s', step c s (ECreateFail t order) = Some s' /\ get_pc (pcs s') t = PFailed).
+Proof. exact creating_fails_after_close. Qed.
+Print Assumptions C07_close_attempt_fails.
+
+(* non-vacuity: two wake-ups in flight when the connector closes (limit=1); the first woken waiter
+   starts an attempt, the second finds no capacity and is refused instead of queueing again *)
+Example C07_close_woken_example :
+  let c := {| limit := 1; lph := 0; force_close := false |} in
+  let tr := [EStart 0 0; EStart 1 0; EStart 2 0; ECreateFail 0 [0]; EStart 3 0; ECreateFail 3 [0]; EClose;
+             EResume 1 []; EResume 2 []] in
+  exists s, run c init tr = Some s /\ closed s = true /\ waiters s = [] /\
+            get_pc (pcs s) 1 = PCreating 0 /\ get_pc (pcs s) 2 = PFailed.
+Proof. eexists. vm_compute. repeat split; reflexivity. Qed.
+Print Assumptions C07_close_woken_example.
 
 Example C07_close_example :
   let c := {| limit := 1; lph := 0; force_close := false |} in
